@@ -58,6 +58,8 @@ class Mat:
         if isinstance(o, Mat):
             return Mat([[sum((self.rows[i][k] * o.rows[k][j] for k in range(1, self.m)), self.rows[i][0] * o.rows[0][j]) for j in range(o.m)] for i in range(self.n)])
         v = vec_of(o)
+        if any(isinstance(c, Poison) for c in v) or any(isinstance(c, Poison) for r in self.rows for c in r):
+            return [vdot(self.rows[i], v) for i in range(self.n)]
         return [sum((self.rows[i][k] * v[k] for k in range(1, self.m)), self.rows[i][0] * v[0]) for i in range(self.n)]
 
     def t(self):
@@ -88,6 +90,9 @@ def vdot(a, b):
 
 
 def vcross(a, b):
+    if any(isinstance(c, Poison) for c in list(a) + list(b)):
+        m = lambda x, y: f_mul(x, y)
+        return [f_sub(m(a[1], b[2]), m(a[2], b[1])), f_sub(m(a[2], b[0]), m(a[0], b[2])), f_sub(m(a[0], b[1]), m(a[1], b[0]))]
     return [a[1] * b[2] - a[2] * b[1], a[2] * b[0] - a[0] * b[2], a[0] * b[1] - a[1] * b[0]]
 
 
